@@ -195,7 +195,7 @@ func c16cases(thorough bool) []c16case {
 	// ---- Delete: shapes of the original published / updated times (zone offsets, boundary instants, and
 	// legal xsd:dateTime spellings that Go's parser refuses and the library keeps verbatim) ----
 	for ti, ts := range []string{"2018-05-06T07:08:09+05:30", "2018-05-06T07:08:09-08:00", "0001-01-01T00:00:00Z", "9999-12-31T23:59:59Z", "2016-02-29T23:59:59Z",
-		"2016-12-31T23:59:60Z", "2016-12-31T23:59:59", "1970-01-01T00:00:00Z"} {
+		"2016-12-31T23:59:60Z", "2016-12-31T23:59:59", "1970-01-01T00:00:00Z", "2019-12-31T23:59:59.999Z", "2019-06-30T12:00:00.5+02:00"} {
 		for _, member := range []string{"published", "updated", "both"} {
 			ts, member := ts, member
 			id := "https://l.example/n/dts"
@@ -204,6 +204,14 @@ func c16cases(thorough bool) []c16case {
 			for _, m := range []string{"published", "updated"} {
 				if member == m || member == "both" {
 					stored[m], tomb[m] = ts, ts
+					if i := strings.Index(ts, "."); i > 0 {
+						// the encoder writes whole seconds: a fraction is dropped (never rounded up)
+						j := i + 1
+						for j < len(ts) && ts[j] >= '0' && ts[j] <= '9' {
+							j++
+						}
+						tomb[m] = ts[:i] + ts[j:]
+					}
 				}
 			}
 			c := c16case{family: "delete", kind: ap.Both, want: "201", name: fmt.Sprintf("Delete timestamp-shape=%d %s", ti, member),
@@ -348,6 +356,70 @@ func c16cases(thorough bool) []c16case {
 			}
 		}
 	}
+	// ---- Add / Remove / Like / Update / Delete naming 5..9 and 12 objects (one owned target, and two) ----
+	for _, n := range []int{5, 6, 7, 8, 9, 12} {
+		n := n
+		var os L
+		var ids []string
+		for i := 0; i < n; i++ {
+			id := fmt.Sprintf("https://r1.example/n/m%d", i)
+			ids = append(ids, id)
+			if i%3 == 2 {
+				os = append(os, Emb("Note", id, "content", "embedded"))
+			} else {
+				os = append(os, id)
+			}
+		}
+		for _, typ := range []string{"Add", "Remove"} {
+			for _, ts := range [][]string{{tOwnedC}, {tOwnedO, tOwnedC}} {
+				typ, ts := typ, ts
+				tl := L{}
+				for _, t := range ts {
+					tl = append(tl, t)
+				}
+				c := c16case{family: strings.ToLower(typ), kind: ap.Both, want: "201", name: fmt.Sprintf("%s %d objects targets=%v stored-entries=many", typ, n, shortIDs(ts)),
+					body: Doc(typ, "", "actor", Alice, "object", os, "target", val1(tl), "to", Carol)}
+				c.tweak = func(a *ap.App) {
+					// the targets already hold every second of the objects, and something to keep
+					var pre L
+					for i := 0; i < n; i += 2 {
+						pre = append(pre, ids[i])
+					}
+					pre = append(pre, "https://r9.example/keep")
+					a.PutDoc(Doc("Collection", tOwnedC, "items", pre))
+					a.PutDoc(Doc("OrderedCollection", tOwnedO, "orderedItems", pre))
+				}
+				c.model = func(r *Ref) {
+					for _, t := range ts {
+						doc := r.Store[t]
+						member := collMember(doc)
+						l := asList(doc[member])
+						if typ == "Add" {
+							for _, id := range ids {
+								l = append(l, id)
+							}
+						} else {
+							var keep []interface{}
+							for _, e := range l {
+								rm := false
+								for _, id := range ids {
+									if idOf(e) == id {
+										rm = true
+									}
+								}
+								if !rm {
+									keep = append(keep, e)
+								}
+							}
+							l = keep
+						}
+						setOrDelete(doc, member, fromList(l))
+					}
+				}
+				cs = append(cs, c)
+			}
+		}
+	}
 	// ---- Like / Block ----
 	for _, os := range oSeqs {
 		for _, kind := range kinds {
@@ -434,7 +506,7 @@ func shortVals(l []interface{}) []string {
 func C16(tier string) int {
 	res := NewResult("C16", tier, "exploration")
 	cases := c16cases(res.Thorough())
-	res.Rule = fmt.Sprintf("Update: stored object with each subset of {name, content, summary, an unknown member} x update object assigning each member in {absent, new value, null}; two objects with every pair of independent assignments (81 x 81) and three-object triples; Delete: 1..%d objects of 3 types with/without published/updated, IRI/embedded, model clock, and 8 shapes of the original times (zone offsets, zero instant, year 9999, leap day, a leap second and a zone-less form that are kept verbatim); Add/Remove: every sequence of 1..%d objects (IRI/embedded) x every sequence of distinct targets over {owned Collection with duplicates, owned OrderedCollection with duplicates, foreign, a collection on the local host that another tenant owns, an owned collection on a foreign host}, the stored collections spelling their entries as IRIs or as a mixture of IRIs, embedded objects and a Link named by href, and the owned targets stored as CollectionPage / OrderedCollectionPage; Like and Block with the same object sequences, Like also with its 'actor' naming another local actor / several actors / a remote actor / nobody (the ids go to the liked collection of the outbox's owner); each type with object/target absent or empty; Social-only and both protocols; every Like / Block and every third other request again with application hooks wrapped around the default callbacks; %d base requests; plus every ordered pair (and every triple over 12 of them; thorough: a third of all triples) of single-object Add / Remove / Like requests as a history on ONE application, the reference model applied step by step, and every ordered pair of Updates of one stored object; oracle: a reference model on JSON (merge + null deletion, Tombstone fields, collection edits on owned targets only, liked front insertion, Block undelivered, 400 and unchanged state for missing members)", map[bool]int{false: 2, true: 3}[res.Thorough()], map[bool]int{false: 2, true: 3}[res.Thorough()], len(cases))
+	res.Rule = fmt.Sprintf("Update: stored object with each subset of {name, content, summary, an unknown member} x update object assigning each member in {absent, new value, null}; two objects with every pair of independent assignments (81 x 81) and three-object triples; Delete: 1..%d objects of 3 types with/without published/updated, IRI/embedded, model clock, and 10 shapes of the original times (zone offsets, zero instant, year 9999, leap day, a leap second and a zone-less form that are kept verbatim, fractions of a second that are dropped and never rounded up); Add/Remove: every sequence of 1..%d objects (IRI/embedded) x every sequence of distinct targets over {owned Collection with duplicates, owned OrderedCollection with duplicates, foreign, a collection on the local host that another tenant owns, an owned collection on a foreign host}, the stored collections spelling their entries as IRIs or as a mixture of IRIs, embedded objects and a Link named by href, and the owned targets stored as CollectionPage / OrderedCollectionPage; Add / Remove naming 5..9 and 12 objects; Like and Block with the same object sequences, Like also with its 'actor' naming another local actor / several actors / a remote actor / nobody (the ids go to the liked collection of the outbox's owner); each type with object/target absent or empty; Social-only and both protocols; every Like / Block and every third other request again with application hooks wrapped around the default callbacks; %d base requests; plus every ordered pair (and every triple over 12 of them; thorough: a third of all triples) of single-object Add / Remove / Like requests as a history on ONE application, the reference model applied step by step, and every ordered pair of Updates of one stored object; oracle: a reference model on JSON (merge + null deletion, Tombstone fields, collection edits on owned targets only, liked front insertion, Block undelivered, 400 and unchanged state for missing members)", map[bool]int{false: 2, true: 3}[res.Thorough()], map[bool]int{false: 2, true: 3}[res.Thorough()], len(cases))
 	res.Assumptions = []string{"JSON nulls are looked for inside the activity's object (ActivityPub 6.3.1), which is what the statement's wording names", "the stored copy of the activity and the outbox entry are C05's",
 		"one collection named twice as target is excluded here (C09's known finding)"}
 	var mu sync.Mutex
